@@ -5,7 +5,10 @@ use std::collections::BTreeMap;
 use std::sync::atomic::{AtomicU64, Ordering};
 use std::time::Instant;
 
-pub const VERIF_DIR: &str = "/verif";
+/// Root of the verification tree (evidence, replays, known findings); /verif unless the check script says otherwise (scratch copies used for mutation runs).
+pub fn verif_dir() -> String {
+    std::env::var("MCHECK_verif_dir()").unwrap_or_else(|_| "/verif".to_string())
+}
 
 #[derive(Clone, Debug)]
 pub struct Violation {
@@ -144,7 +147,7 @@ impl Run {
         let mut new_violations = 0;
         let mut known_seen = vec![];
         let mut vio_out = vec![];
-        std::fs::create_dir_all(format!("{}/replays", VERIF_DIR)).ok();
+        std::fs::create_dir_all(format!("{}/replays", verif_dir())).ok();
         for (_, (v, hits)) in vio.iter() {
             // a violation recorded by an engine that serves several properties is reported by the property it belongs to only
             if v.property != self.id {
@@ -157,7 +160,7 @@ impl Run {
                 println!("KNOWN-FINDING: property={} {} [class {}; {} hit(s) this run]", v.property, k.what, v.class, hits);
                 known_seen.push(json!({"class": v.class, "hits": hits}));
             } else {
-                let path = format!("{}/replays/{}-{}.json", VERIF_DIR, v.property, short_hash(&v.class));
+                let path = format!("{}/replays/{}-{}.json", verif_dir(), v.property, short_hash(&v.class));
                 let body = json!({
                     "property": v.property, "class": v.class, "what": v.what, "tier": self.tier,
                     "hits": hits, "replay": v.replay,
@@ -200,8 +203,8 @@ impl Run {
             "wall_s": self.elapsed(),
             "violations": new_violations,
         });
-        std::fs::create_dir_all(format!("{}/evidence", VERIF_DIR)).ok();
-        let path = format!("{}/evidence/{}.json", VERIF_DIR, self.id);
+        std::fs::create_dir_all(format!("{}/evidence", verif_dir())).ok();
+        let path = format!("{}/evidence/{}.json", verif_dir(), self.id);
         if let Err(e) = std::fs::write(&path, serde_json::to_string_pretty(&ev).unwrap()) {
             eprintln!("MACHINERY-FAILURE cannot write evidence {}: {}", path, e);
             return 2;
